@@ -25,7 +25,11 @@ def oriented_cases(seed, n, size="small"):
         if b["oriented"] and b["manifold"] and len(np.unique(c["t"])) == len(c["v"]):
             rng = gen.rng_for(seed, "c17", k); k += 1
             v = c["v"] if c["name"] in ("icosphere", "octahedron", "cylinder") and rng.random() < 0.5 else gen.jitter(rng, c["v"], 0.01)
-            yield dict(v=v, t=c["t"], name=c["name"], smoothit=int(rng.integers(0, 11)), pres=c.get("pres"))
+            t = c["t"]
+            name = c["name"]
+            if k % 3 == 1:           # the same surface with every triangle reversed: still oriented, all curvature signs change
+                t = t[:, [0, 2, 1]]; name += "-reversed"
+            yield dict(v=v, t=t, name=name, smoothit=int(rng.integers(0, 11)), pres=c.get("pres"))
             if k >= n:
                 return
 
